@@ -44,6 +44,20 @@ CHECKS = {
              'letters; every displayed label in every explored history/interleaving is used as `X: label` matcher and must '
              'select exactly the reference set of lines.',
         ref='3/C14', engine='PROD'),
+    'C08': dict(
+        technique='deviation-bounded exhaustive enumeration (inserted chatter lines at every position, missing final '
+                  'newline, truncation at every character) of streams fed to the real parser loop through an instrumented reader',
+        text='For 4 well-formed base streams, every placement of <=1/<=2 chatter lines from an alphabet of 11, both '
+             '--supress settings and every truncation point are executed on the real into_sink; oracle = item-for-item '
+             'conservation against the clean twin, pacing at every readline, prefix + closed notices under truncation.',
+        ref='3/C08', engine='DEV'),
+    'C16': dict(
+        technique='exhaustive product enumeration of logs over a microsecond gap lattice x visibility x time shift x '
+                  'decimal mark x view, executed on the real pipeline, oracle in exact integer arithmetic',
+        text='All logs of 3/4 messages with gaps from {0,.4,.999999,1,1.000001,1.2,2.5}s, every shown/hidden pattern, '
+             '4/10 constant shifts, both decimal marks, live view and list, 1-2 connections: displayed times and the '
+             'presence/value of every gap separator must equal the exact reference.',
+        ref='3/C16', engine='PROD'),
 }
 
 NOT_YET = 'check under construction in this round; will be claimed when mc/props/%s.py lands'
